@@ -733,7 +733,6 @@ func (w *World) menu() []alt {
 					w.bk.send(c, encAck(tPUBREL, m.id))
 				}})
 			}
-			break // the oldest only
 		}
 	}
 	if len(w.scn.Hostile) > 0 && !w.hostileSent {
